@@ -93,6 +93,8 @@ func findPeerS(l []PeerS, id uint64) *PeerS {
 // for every candidate/consensus peer q of the previous view, Σ over authorizers other than the owner of the positions
 // executeAddressSplit will use ≤ q.TotalPos of the previous view; cost percentages in range; A+B ≤ 100; dapp fee ≤ 100;
 // SplitFee ≤ ONG balance; the split will find its K candidates and each of them in the current pool.
+// (A candidate with InitPos+TotalPos = 0 is fine since the repair of splitNodeFee; what the property says about such a
+// state — no panic, Σ credits ≤ income, credits withdrawable — is checked directly in History.)
 func (s *Snapshot) GovInv(k int) (string, string) {
 	n := 0
 	for _, q := range s.Prev {
@@ -117,9 +119,6 @@ func (s *Snapshot) GovInv(k int) (string, string) {
 		}
 		if t > q.Total {
 			return "positions-exceed-totalpos", fmt.Sprintf("peer %d: authorizers' settled positions %d > TotalPos %d of the previous view", q.ID, t, q.Total)
-		}
-		if q.Init+q.Total == 0 {
-			return "zero-stake-candidate", fmt.Sprintf("peer %d is a candidate of the view being settled with InitPos+TotalPos = 0 (splitNodeFee divides by it)", q.ID)
 		}
 		for _, a := range s.Attrs {
 			if a.Peer == q.ID && (a.Tpc > 100 || a.Tsc > 101) {
